@@ -372,4 +372,29 @@ CHECKS = {
              "loaded (it does not when cores of the same app id already "
              "wait - an observation, not a code shape); reassembly on the "
              "machine; block count < 256. Assumes buffer size >= 4."),
+    "C02": dict(
+        technique="CFG dominance / must-pass-through with def-use identity "
+                  "over the placers, resource-role typing of add/subtract "
+                  "operands, sibling agreement between the constraint loops "
+                  "and between the C kernel's index loops, explicit-raise "
+                  "inventory, LINK",
+        text="In sequential, random and annealing placers every commit of a "
+             "movable vertex is dominated by a failed overallocated(machine"
+             "[loc] - vertices_resources[v]) test for that loc and v and "
+             "followed by the machine update; location constraints check "
+             "the chip, subtract, then check capacity (R1). A swap needs "
+             "destination present, a displaced set found and the fit test; "
+             "the revert mirrors it; fixed vertices never displaced; chip "
+             "resources are always the first operand of add/subtract; the C "
+             "kernel indexes resources by one enumeration (R2). All three "
+             "constraint loops dispatch location and reservation "
+             "constraints identically; wrappers forward their own arguments "
+             "(R3). apply/finalise_same_chip_constraints paired on every "
+             "non-empty return; the vertex-order rewrite can never remove "
+             "a missing element (R4). Reservation arithmetic (R5). Only the "
+             "two documented errors are raised explicitly (R6). Stdlib "
+             "names exist; no Random.sample of a set (R7).",
+        note="Not decided: that the search succeeds whenever a placement "
+             "exists; termination of annealing; the C kernel's internals; "
+             "implicit exceptions other than the list.remove discipline."),
 }
